@@ -26,6 +26,8 @@ def shape_key(c):
         return 'typename-search:spread-cycle-on-abstract-type'
     if c['kernel'] in ('used_input_ids', 'input_recursion', 'render_object_literal'):
         return f"{c['kernel']}:input-type-cycle"
+    if c['kernel'] == 'type_conditions':
+        return 'type-conditions:self-referential-union'
     if c['kernel'] == 'collect_used_types':
         return 'collect-used-types:spread-cycle'
     return c['kernel']
@@ -35,6 +37,9 @@ def native_run(rt, c):
     if 'fragments' in c and c['fragments']:
         use = None if c['kernel'] == 'typename_search' else int(c['target'][1:]) if c.get('target', '').startswith('F') else 0
         schema, query = synth.fragment_texts(c['fragments'], use=use)
+    elif c['kernel'] == 'type_conditions':
+        import C06
+        schema, query = C06.render_type_condition(c)
     elif 'graph' in c and c['graph']:
         schema, query = synth.input_graph_texts(c['graph'], c.get('start') or c.get('target'))
         if c['kernel'] == 'render_object_literal':
@@ -65,6 +70,8 @@ def main():
     for N, Kf in ns:
         cands += K.k_used_input_ids(R, N, Kf)
         cands += K.k_render_object_literal(R, N, Kf)
+    # type-condition validation on a schema whose union lists itself as a member
+    cands += [c for c in K.k_type_conditions(R, self_union=True) if c['prop'] == 'C17']
     R.vm.loop_watch = ['contains_type_without_indirection']
     for N, Kf in ns[:2] if tier == 'quick' else ns[:3]:
         cands += [c for c in K.k_input_recursion(R, N, Kf, 1) if c['prop'] == 'C17']
